@@ -69,11 +69,16 @@ inductive Op
   | forgeWhole (seq : Nat)
   /-- first chunk (2 bytes) of message `m98` at sequence `seq` -/
   | forgeFirst (seq : Nat)
+  /-- deliver the NEWEST message of the consumer→producer / producer→consumer link (ops `dcpL` / `dpcL`) -/
+  | lastCP
+  | lastPC
 
 def Op.run (w : World) : Op → World × StepOut
   | .step s => w.step s
   | .forgeWhole q => w.stepC (.fromProducer (.sequenced w.p.session ⟨99, q, .whole (GoaktVerif.Spec.C42.payloadOf 99), {}⟩))
   | .forgeFirst q => w.stepC (.fromProducer (.sequenced w.p.session ⟨98, q, .piece 0 1 2 2, ⟨true, true, false⟩⟩))
+  | .lastCP => w.step (.deliverCP (w.netCP.length - 1))
+  | .lastPC => w.step (.deliverPC (w.netPC.length - 1))
 
 def runTrace (w : World) : List Op → List String
   | [] => []
